@@ -37,25 +37,31 @@ def worker(a):
     tol = scat * (1e-9 + (2 * math.pi * sum(abs(x) for x in h) * 1e-6 if tab["thirds"] else 0.0)) + 1e-12
     tag = "Sg%d %s hkl %s" % (tab["no"], name, h)
     R = [np.array(r, dtype=float) for r in tab["rot"]]
-    want = 0j
-    atoms = []
-    for sp, r in zip(spec, recs):
-        N = r["cs"]["N"]
-        f = S.f0(ff[sp["el"]], s2)
-        fp, fpp = (disp.get(sp["el"]) or (0.0, 0.0)) if disp is not None else (0.0, 0.0)
-        acc = 0j
-        for (q, count, phase, rot) in r["orbit"]:
-            if sp["adp_type"] == "Uiso":
-                dw = math.exp(-8 * math.pi ** 2 * sp["adp"] * s2)
-            elif sp["adp_type"] == "Uani":
-                hr = np.array(h, dtype=float).dot(R[rot - 1])
-                dw = math.exp(-hr.dot(S.beta_from_u(sp["adp"], met, c)).dot(hr))
-            else:
-                dw = 1.0
-            acc += dw * cmath.exp(2j * math.pi * phase / N)
-        want += sp["occ"] * complex(f + fp, fpp) * acc
-        pos = [x / N + sh for x, sh in zip(r["cs"]["p"], sp["shift"])]
-        atoms.append(S.make_atom(sp["label"], sp["el"], pos, sp["adp_type"], sp["adp"], sp["occ"], len(r["orbit"])))
+    def oracle(cc, build):
+        """explicit P1 sum for the scale cc of the reciprocal metric"""
+        s2_ = cc * S.qform(met, h) / 4.0
+        tot = 0j
+        ats = []
+        for sp, r in zip(spec, recs):
+            N = r["cs"]["N"]
+            f = S.f0(ff[sp["el"]], s2_)
+            fp, fpp = (disp.get(sp["el"]) or (0.0, 0.0)) if disp is not None else (0.0, 0.0)
+            acc = 0j
+            for (q, count, phase, rot) in r["orbit"]:
+                if sp["adp_type"] == "Uiso":
+                    dw = math.exp(-8 * math.pi ** 2 * sp["adp"] * s2_)
+                elif sp["adp_type"] == "Uani":
+                    hr = np.array(h, dtype=float).dot(R[rot - 1])
+                    dw = math.exp(-hr.dot(S.beta_from_u(sp["adp"], met, cc)).dot(hr))
+                else:
+                    dw = 1.0
+                acc += dw * cmath.exp(2j * math.pi * phase / N)
+            tot += sp["occ"] * complex(f + fp, fpp) * acc
+            if build:
+                pos = [x / N + sh for x, sh in zip(r["cs"]["p"], sp["shift"])]
+                ats.append(S.make_atom(sp["label"], sp["el"], pos, sp["adp_type"], sp["adp"], sp["occ"], len(r["orbit"])))
+        return tot, ats
+    want, atoms = oracle(c, True)
     try:
         F = S.call_sf(h, cell, name, atoms, disp)
         n += 1
@@ -63,6 +69,15 @@ def worker(a):
             out.append("StructureFactor = %r, explicit sum over the cell contents = %r (|diff| %.3g > %.2g; atoms %s; dispersion %s) (%s)" %
                        (F, want, abs(F - want), tol, [(sp["el"], sp["adp_type"], len(r["orbit"])) for sp, r in zip(spec, recs)],
                         "none" if disp is None else disp, tag))
+        # the SAME atom objects in another cell (same reciprocal metric, another scale): nothing derived from the first cell
+        # may stick to the atoms
+        c2 = c * 1.37
+        cell2 = gl.cell_from_recip_metric(met, c2)
+        want2, _ = oracle(c2, False)
+        Fb = S.call_sf(h, cell2, name, atoms, disp)
+        if abs(Fb - want2) > tol:
+            out.append("StructureFactor on the same atom objects in a second cell = %r, explicit sum = %r (|diff| %.3g): something computed for the "
+                       "first cell is reused (%s)" % (Fb, want2, abs(Fb - want2), tag))
         # corollaries
         sh_atoms = [S.make_atom(a_.label, a_.atomtype, [x + d for x, d in zip(a_.pos, (1, -2, 3))], a_.adp_type, a_.adp, a_.occ, a_.symmulti)
                     for a_ in atoms]
